@@ -21,7 +21,7 @@ from .model import AnalysisError, Project
 HERE = os.path.dirname(os.path.abspath(__file__))
 CACHE = os.path.join(os.path.dirname(HERE), ".cache")
 PY = "/venv/bin/python"
-WORKER_VERSION = "3"
+WORKER_VERSION = "4"
 
 
 def typed_facts(project: Project, use_cache: bool = True) -> Dict[str, Any]:
